@@ -423,6 +423,19 @@ def removed_signer_acts(hbin, scr, sd):
     return rec, len(behs)
 
 
+def restart_behaviours(g, blocks):
+    """One behaviour per block boundary: the blocks in order, with a crash and a restart after the k-th block's Commit."""
+    behs = []
+    for k in range(1, len(blocks)):
+        b = [{"a": "InitChain", "g": g}]
+        for i, blk in enumerate(blocks):
+            b += blk
+            if i + 1 == k:
+                b += [{"a": "Crash"}, {"a": "Restart"}]
+        behs.append(b)
+    return behs
+
+
 def restart_before_completion(hbin, scr, sd):
     """A node that is stopped and started again on its database at every block boundary of an order's life (raised, decided,
     tallied, minted): after the restart it goes on exactly where the committed state says (C03: the order is completed in
@@ -438,14 +451,7 @@ def restart_before_completion(hbin, scr, sd):
     blocks = [[BB, tx({"t": "Raise", "pur": "A3", "amt": 9, "denom": "nund"}), tx({"t": "Decide", "signer": "A1", "id": 1, "d": "accept"}), EB, CM],
               [BB, tx({"t": "Raise", "pur": "A3", "amt": 5, "denom": "nund"}), EB, CM],
               [BB, tx({"t": "Decide", "signer": "A2", "id": 2, "d": "accept"}), EB, CM], [BB, EB, CM], [BB, EB, CM], [BB, EB, CM]]
-    behs = []
-    for k in range(1, len(blocks)):
-        b = [{"a": "InitChain", "g": g}]
-        for i, blk in enumerate(blocks):
-            b += blk
-            if i + 1 == k:
-                b += [{"a": "Crash"}, {"a": "Restart"}]
-        behs.append(b)
+    behs = restart_behaviours(g, blocks)
     rec, _ = vlib.record_behaviours(hbin, behs, scr, name="restart-before-completion")
     return rec, len(behs)
 
@@ -578,6 +584,17 @@ def c01_custom(pid, tier, plan, scr, hbin, specdir):
         + blk(10000, tx({"t": "STopUp", "sender": "A1", "receiver": "A2", "dep": 60, "denom": "nund"}), tx({"t": "SClaim", "sender": "A1", "receiver": "A2"})) \
         + blk(1000, tx({"t": "SRate", "sender": "A1", "receiver": "A2", "rate": 2}), tx({"t": "Decide", "signer": "A1", "id": 1, "d": "accept"})) \
         + blk(1000) + blk(1000, tx({"t": "SCancel", "sender": "A1", "receiver": "A2"})) + blk(1000)
+    # an order's life (raised, decided, tallied, minted and locked, spent on a fee) next to a stream and a registration, with the
+    # second replica stopped and started again on its database after every block in turn
+    g2 = {k: v for k, v in g.items() if k not in ("t0unix", "waitUntil")}
+    fee = lambda f, m: {"a": "DeliverTx", "fee": {"nund": f}, "msgs": [m]}
+    life = [blk(1000, tx({"t": "Raise", "pur": "A3", "amt": 40, "denom": "nund"}), tx({"t": "Decide", "signer": "A1", "id": 1, "d": "accept"}),
+                tx({"t": "SCreate", "sender": "A1", "receiver": "A2", "dep": 120, "denom": "nund", "rate": 1})),
+            blk(1000, tx({"t": "Raise", "pur": "A3", "amt": 7, "denom": "nund"})), blk(1000, tx({"t": "Decide", "signer": "A1", "id": 2, "d": "accept"})),
+            blk(1000, fee(24, {"t": "WReg", "owner": "A3", "moniker": "m", "name": "n", "genesis": "g", "type": "t"})),
+            blk(1000, fee(2, {"t": "WRec", "owner": "A3", "id": 1, "h": 1, "bh": "b", "ph": "", "h1": "", "h2": "", "h3": ""}), tx({"t": "SClaim", "sender": "A1", "receiver": "A2"})),
+            blk(1000), blk(1000)]
+    twin(restart_behaviours(g2, life), "twin-order-life", "scripted: an order's life, a stream and a registration; replica B restarted after every block in turn")
     twin([wall], "twin-wallclock", "scripted: deadlines a few seconds after the wall clock; replica A before, replicas B/C after")
     cov["wall_clock_scenarios"] = 1
     violations, known_hits = classify(pid, recs, cov, scr, specdir)
